@@ -3,8 +3,10 @@
 #include "common.h"
 #include "Archive/ArchiveFile.h"
 #include "Archive/VolFile.h"
+#include "Stream/SliceReader.h"
 #include <functional>
 #include <memory>
+#include <unistd.h>
 
 namespace sim {
 
@@ -55,7 +57,31 @@ struct ArchiveChecker {
 		if (len != want.size()) ctx.fail(clStream, "stream of member " + std::to_string(i) + " '" + exp[i].name + "' has length " + std::to_string(len) + ", expected " + std::to_string(want.size()));
 		Rng r(rseed);
 		std::vector<uint8_t> got;
+		size_t handOver = (r.chance(1, 3) && want.size() > 1) ? 1 + static_cast<size_t>(r.below(want.size() - 1)) : SIZE_MAX; // continue through a copy from here
 		while (got.size() < want.size()) {
+			if (got.size() >= handOver) {
+				handOver = SIZE_MAX;
+				if (auto* fs = dynamic_cast<OP2Utility::Stream::FileSliceReader*>(s.get())) {
+					// a member stream is a file slice: a copy taken in mid-stream continues where the original stands, and a sub-slice
+					// whose start + length wraps around 2^64 is refused
+					std::unique_ptr<OP2Utility::Stream::BidirectionalReader> c;
+					bool wrapRefused = false;
+					uint64_t cpos = 0;
+					o = callLib(plan, [&] {
+						try { auto bad = fs->Slice(UINT64_MAX - r.below(8), 1 + r.below(40)); (void)bad; } catch (const std::exception&) { wrapRefused = true; }
+						c = std::make_unique<OP2Utility::Stream::FileSliceReader>(*fs);
+						cpos = c->Position();
+					}, &what);
+					if (o != OkOut) ctx.fail(clStream, "copying the stream of member " + std::to_string(i) + " at position " + std::to_string(got.size()) + " failed: " + what);
+					if (!wrapRefused) ctx.fail(clStream, "a sub-slice of the stream of member " + std::to_string(i) + " whose start + length wraps around 2^64 was created");
+					// where a copy starts is not specified (this library's file slices restart at 0): adopt the position it reports - what it
+					// then delivers must be the member's bytes from exactly there
+					if (cpos > want.size()) ctx.fail(clStream, "a copy of the stream of member " + std::to_string(i) + " reports position " + std::to_string(cpos) + " beyond its length");
+					got.assign(want.begin(), want.begin() + static_cast<long>(cpos));
+					{ Armed a; s = std::move(c); }
+					ctx.count("probe.stream_continued_through_copy");
+				}
+			}
 			size_t rem = want.size() - got.size();
 			size_t k;
 			switch (r.below(5)) { case 0: k = 1; break; case 1: k = 1 + r.below(7); break; case 2: k = rem; break; case 3: k = 1 + r.below(4096); break; default: k = 1 + r.below(200000); break; }
@@ -100,6 +126,10 @@ struct ArchiveChecker {
 		if (exp[i].kind != 0x100 && exp[i].kind != 0x103) return;
 		std::string path = "_ex" + std::to_string(opIdx) + "/m" + std::to_string(i) + extractExt;
 		std::string what;
+		// what is at the destination beforehand: nothing, a file of the same length with other content, or a file of another length
+		uint64_t pre = mix64(plan.seed, opIdx * 31 + i) % 4;
+		if (pre == 1 && !exp[i].data.empty()) { std::vector<uint8_t> decoy = exp[i].data; for (auto& b : decoy) b = static_cast<uint8_t>(~b); disk::put(path, decoy); ctx.count("probe.extract_over_same_length_file"); }
+		else if (pre == 2) disk::put(path, prngBytes(plan.seed ^ opIdx, exp[i].data.size() + 1 + (plan.seed % 50)));
 		Out o = callLib(plan, [&] { if (byName) ar.ExtractFile(caseVariant(exp[i].name, variant), path); else ar.ExtractFile(i, path); }, &what);
 		std::string desc = std::string(byName ? "ExtractFile(name)" : "ExtractFile(index)") + " of member " + std::to_string(i) + " '" + exp[i].name + "'";
 		if (o != OkOut) ctx.fail(clExtract, desc + " failed: " + what);
@@ -112,11 +142,32 @@ struct ArchiveChecker {
 		for (auto& m : exp) if (m.kind != 0x100 && m.kind != 0x103) return;
 		std::string dir = "_all" + std::to_string(opIdx);
 		std::string what;
-		Out o = callLib(plan, [&] { ar.ExtractAllFiles(dir); }, &what);
-		if (o != OkOut) ctx.fail(clExtract, "ExtractAllFiles failed: " + what);
-		for (auto& m : exp) checkFile(dir + "/" + m.name, m.data, "ExtractAllFiles member '" + m.name + "'", &m);
-		auto snap = disk::snapshot(dir);
-		if (!exp.empty() && snap.size() != exp.size()) ctx.fail(clExtract, "ExtractAllFiles produced " + std::to_string(snap.size()) + " entries for " + std::to_string(exp.size()) + " members");
+		// destination: a fresh directory, one spelled with a trailing '/' or a leading './', one already holding same-named files of the
+		// same length with other content, or the current directory under its three spellings ("" is the library's own)
+		uint64_t how = mix64(plan.seed, opIdx * 17 + 5) % 7;
+		std::string arg = dir, base = dir + "/";
+		size_t foreign = 0;
+		auto fileNameOf = [&](const Member& m) { return m.name; }; // ExtractAllFiles names each file after its member
+		if (how == 1) arg = dir + "/";
+		else if (how == 2) arg = "./" + dir;
+		else if (how == 3) {
+			for (auto& m : exp) if (!m.data.empty() && mix64(plan.seed, fnv1a(reinterpret_cast<const uint8_t*>(m.name.data()), m.name.size())) % 2) { std::vector<uint8_t> decoy(m.data.size()); for (size_t k = 0; k < decoy.size(); ++k) decoy[k] = static_cast<uint8_t>(~m.data[k]); disk::put(dir + "/" + fileNameOf(m), decoy); }
+			disk::put(dir + "/_foreign.keep", prngBytes(plan.seed, 9)); foreign = 1;
+			ctx.count("probe.extractall_into_populated_directory");
+		} else if (how >= 4) {
+			// current directory - only when no member would land on something that already exists there
+			bool safe = true;
+			for (auto& m : exp) if (disk::exists(fileNameOf(m)) || fileNameOf(m).find('/') != std::string::npos) safe = false;
+			if (safe) { arg = how == 4 ? "" : how == 5 ? "." : "./"; base = ""; ctx.count("probe.extractall_into_current_directory"); }
+		}
+		Out o = callLib(plan, [&] { ar.ExtractAllFiles(arg); }, &what);
+		if (o != OkOut) ctx.fail(clExtract, "ExtractAllFiles('" + arg + "') failed: " + what);
+		for (auto& m : exp) checkFile(base + fileNameOf(m), m.data, "ExtractAllFiles('" + arg + "') member '" + m.name + "'", &m);
+		if (base.empty()) { for (auto& m : exp) unlink(fileNameOf(m).c_str()); }
+		else {
+			auto snap = disk::snapshot(dir);
+			if (!exp.empty() && snap.size() != exp.size() + foreign) ctx.fail(clExtract, "ExtractAllFiles produced " + std::to_string(snap.size() - foreign) + " entries for " + std::to_string(exp.size()) + " members");
+		}
 		ctx.event("extractall " + std::to_string(exp.size()));
 	}
 
